@@ -401,6 +401,23 @@ M("C18", "skip-window-hoisted-gap-set-while-filling", [(RS, _HOIST_OLD, _HOIST_N
 M("C05", "gap-draw-ceil-instead-of-floor", (RS, "            let g = (u.ln() / (1. - p).ln()).floor() as usize;", "            let g = (u.ln() / (1. - p).ln()).ceil() as usize;"), "R05-gap-term", "gap-draw")
 B("C05", "gap-draw-floor-by-cast", (RS, "            let g = (u.ln() / (1. - p).ln()).floor() as usize;", "            let g = (u.ln() / (1. - p).ln()) as usize;"))
 
+# ---- new public entry points (who-may-write rule): direct writers fire, compositions of reviewed public operations stay silent
+_CF_A = "    /// Remove element from the filter.\n    ///\n    /// Returns `true` if element was in the filter"
+_LC_A = "    /// Clear state of the counter.\n    pub fn clear(&mut self) {"
+_RS_A = "    /// Checks if reservoir is empty (i.e. no data points where observed)\n    pub fn is_empty(&self) -> bool {"
+_QF_A = "    /// Number of bits used for addressing slots.\n"
+M("C14", "new-api-reset-len", (CF, _CF_A, "    /// Forget how many elements are stored.\n    pub fn reset_len(&mut self) {\n        self.n_elements = 0;\n    }\n\n" + _CF_A), "R14-new-writers", "reset_len")
+M("C12", "new-api-insert-unlogged", (CF, _CF_A, "    /// Insert without rollback.\n    pub fn insert_unlogged(&mut self, t: &T) -> Result<bool, CuckooFilterFull> {\n        let (f, i1, i2) = self.start(t);\n        let mut log = Vec::new();\n        self.insert_internal(f, i1, i2, &mut log)\n    }\n\n" + _CF_A), "R12-new-writers", "insert_unlogged")
+B("C14", "new-api-insert-twice-by-public-calls", (CF, _CF_A, "    /// Insert the element two times.\n    pub fn insert_twice(&mut self, t: &T) -> Result<bool, CuckooFilterFull> {\n        self.insert(t)?;\n        self.insert(t)\n    }\n\n" + _CF_A))
+B("C12", "new-api-insert-twice-by-public-calls", (CF, _CF_A, "    /// Insert the element two times.\n    pub fn insert_twice(&mut self, t: &T) -> Result<bool, CuckooFilterFull> {\n        self.insert(t)?;\n        self.insert(t)\n    }\n\n" + _CF_A))
+B("C01", "new-api-replace-rng", (CF, _CF_A, "    /// Swap the random number generator.\n    pub fn replace_rng(&mut self, rng: R) -> R {\n        std::mem::replace(&mut self.rng, rng)\n    }\n\n" + _CF_A))
+M("C13", "new-api-wipe-slot", (QF, _QF_A, "    /// Mark a slot as unused.\n    pub fn wipe_slot(&mut self, pos: usize) {\n        self.is_occupied.set(pos, false);\n    }\n\n" + _QF_A), "R13-new-writers", "wipe_slot")
+M("C09", "new-api-skip", (LC, _LC_A, "    /// Account for `count` unseen data points.\n    pub fn skip(&mut self, count: usize) {\n        self.n += count;\n    }\n\n" + _LC_A), "R09-new-writers", "skip")
+B("C09", "new-api-add-pair-by-public-calls", (LC, _LC_A, "    /// Add two elements.\n    pub fn add_pair(&mut self, a: T, b: T) -> bool {\n        let x = self.add(a);\n        let y = self.add(b);\n        x && y\n    }\n\n" + _LC_A))
+M("C18", "new-api-reservoir-mut", (RS, _RS_A, "    /// Mutable access to the sample.\n    pub fn reservoir_mut(&mut self) -> &mut Vec<T> {\n        &mut self.reservoir\n    }\n\n" + _RS_A), "R18-new-writers", "reservoir_mut")
+B("C05", "new-api-replace-rng", (RS, _RS_A, "    /// Swap the random number generator.\n    pub fn replace_rng(&mut self, rng: R) -> R {\n        std::mem::replace(&mut self.rng, rng)\n    }\n\n" + _RS_A))
+B("C18", "new-api-add-all-by-public-calls", (RS, _RS_A, "    /// Observe all data points of a vector.\n    pub fn add_all(&mut self, objs: Vec<T>) {\n        for obj in objs {\n            self.add(obj);\n        }\n    }\n\n" + _RS_A))
+
 
 def main():
     out = os.path.join(os.path.dirname(os.path.abspath(__file__)), "corpus.json")
